@@ -511,7 +511,7 @@ fn params_line(r: i64, n: usize, p: i64, em: bool, id0: &[u8]) -> String {
 
 pub fn run(c: &mut Ctx) {
     c.rule = "ISO-clean random documents (no strings in stream dictionaries, no Metadata dictionaries, no Crypt filters) x revisions 2-6 x key lengths 40..128 x \
-RC4 / AESV2 / AESV3 (V4 strings and streams independently) x EncryptMetadata x conforming permission words x passwords (ASCII, Latin-1, non-Latin for R>=5, up to 127 bytes) \
+RC4 / AESV2 / AESV3 (V4 strings and streams independently) x EncryptMetadata x conforming permission words x passwords (ASCII, Latin-1, non-Latin for R>=5, up to 200 bytes incl. 127 / 128) x Length present / absent (V4) / 256 (V5) x Identity default filters \
 x random file identifiers, salts and IVs. Direction A: lopdf encrypts, the Rust reference and the Lean spec recompute O, U, OE, UE, keys, ciphertexts and decrypt. \
 Direction B: the reference encrypts, lopdf authenticates / decrypts in memory and after save_to + load_mem. Non-trivial = the document holds at least one string or stream; distinct by document text.".into();
     c.corr("c6_selftest".into(), "ok".into());
@@ -553,11 +553,9 @@ fn prim_cross(c: &mut Ctx) {
 fn gen_cfg_a(r: &mut Rng, forced: Option<Ver>) -> Config {
     loop {
         let mut cfg = c05::gen_config(r, forced.clone());
-        // stay out of registered-deviation territory: owner password present (F-C06-e), <= 127 bytes for R>=5 (F-C05-c),
-        // PDFDoc-encodable for R<=4 (F-C05-b), no Identity default filters (F-C06-b is about their naming)
+        // stay out of registered-deviation territory: owner password present (F-C06-e), PDFDoc-encodable for R<=4 (F-C05-b)
         if cfg.owner.is_empty() { cfg.owner = "own".into(); }
         if cfg.revision() <= 4 && !(cfg.user.chars().all(|ch| (ch as u32) < 0x7f) && cfg.owner.chars().all(|ch| (ch as u32) < 0x7f)) { continue; }
-        if cfg.user.len() > 127 || cfg.owner.len() > 127 { continue; }
         return cfg;
     }
 }
@@ -613,7 +611,7 @@ fn dir_a(c: &mut Ctx, r: &mut Rng, forced: Option<Ver>, idx: u64) {
             c.corr(format!("c6_perms {} {} {} {}", p as u32, d.encrypt_metadata as u8, hex_tok(&cfg.file_key), hex_tok(&plain[12..16])), format!("ok {}", hex_tok(&d.perms)));
         } else { c.oracle_fail("perms-differs", "Perms is not 16 bytes", case.clone()); }
         // Lean spec: R5 always, R6 (full Algorithm 2.B in Lean, slow) on a few cases
-        if rev == 5 || idx < 40 && idx % 2 == 0 || !c.quick() && idx % 8 == 0 {
+        if rev == 5 || idx < 36 && idx % 3 == 0 || !c.quick() && idx % 8 == 0 {
             c.corr(format!("c6_dict6 {} {} {} {} {} {}", rev, hex_tok(&cfg.file_key), hex_tok(&owner_b), hex_tok(&user_b), hex_tok(&d.u[32..48]), hex_tok(&d.o[32..48])),
                    format!("ok {} {} {} {}", hex_tok(&d.u), hex_tok(&d.ue), hex_tok(&d.o), hex_tok(&d.oe)));
             c.corr(format!("c6_key6 {} {} {} {} {} {}", rev, hex_tok(&d.o), hex_tok(&d.u), hex_tok(&d.oe), hex_tok(&d.ue), hex_tok(&owner_b)), format!("ok {}", hex_tok(&cfg.file_key)));
@@ -621,6 +619,7 @@ fn dir_a(c: &mut Ctx, r: &mut Rng, forced: Option<Ver>, idx: u64) {
         }
         for pw in [cfg.user.clone(), cfg.owner.clone(), "nope".to_string()] {
             let b = c05::sanitize(&enc, &pw).unwrap_or_default();
+            let b: Vec<u8> = b.into_iter().take(127).collect();   // Algorithms 11 / 12: first 127 bytes
             let (lo, lu) = (enc.authenticate_owner_password(&pw).is_ok(), enc.authenticate_user_password(&pw).is_ok());
             let eo = refimpl::alg2b(rev, &b, &d.o[32..40], &d.u) == d.o[..32];
             let eu = refimpl::alg2b(rev, &b, &d.u[32..40], &[]) == d.u[..32];
@@ -675,6 +674,8 @@ fn gen_params_b(r: &mut Rng, idx: u64) -> (refimpl::EncParams, String, String) {
         cf.push((b"StdCF".to_vec(), k1.to_vec())); stmf = Some(b"StdCF".to_vec());
         if k1 == k2 { strf = Some(b"StdCF".to_vec()); } else { cf.push((b"StrCF".to_vec(), k2.to_vec())); strf = Some(b"StrCF".to_vec()); }
     } else if v == 5 { cf.push((b"StdCF".to_vec(), b"AESV3".to_vec())); stmf = Some(b"StdCF".to_vec()); strf = Some(b"StdCF".to_vec()); }
+    // the predefined name Identity as a default filter (no CF entry)
+    if v >= 4 { match r.below(8) { 0 => stmf = Some(b"Identity".to_vec()), 1 => strf = Some(b"Identity".to_vec()), _ => {} } }
     let mut perms = 0u64; for b in c05::PERM_BITS { if r.chance(1, 2) { perms |= 1 << b; } }
     let p = ((perms | 0xffff_ffff_ffff_f0c0) as i64) as i32 as i64;
     let mut user; let mut owner;
@@ -682,12 +683,11 @@ fn gen_params_b(r: &mut Rng, idx: u64) -> (refimpl::EncParams, String, String) {
         user = c05::gen_password(r, r6); owner = c05::gen_password(r, r6);
         if owner.is_empty() || owner == user { owner = format!("{}#o", user); }
         if !r6 && !(user.is_ascii() && owner.is_ascii()) { continue; }
-        if user.len() > 127 || owner.len() > 127 { continue; }
         break;
     }
     (refimpl::EncParams { v, r: rr, key_bits: bits, p, encrypt_metadata: v < 4 || r.chance(1, 2), cf, stmf, strf,
         owner: Some(owner.as_bytes().to_vec()), user: user.as_bytes().to_vec(), file_key: if r6 { r.bytes(32) } else { vec![] },
-        write_length: v == 2 || v == 4, direct_encrypt_dict: false, in_stream_dicts: true }, user, owner)
+        write_length: v == 2 || (v == 4 && r.chance(1, 2)) || (v == 5 && r.chance(1, 2)), direct_encrypt_dict: false, in_stream_dicts: true }, user, owner)
 }
 
 /// Direction B: the reference encrypts; lopdf authenticates and decrypts (in memory and from a file)
